@@ -71,7 +71,7 @@ theorem struct_mgrStart {P : Program} {depth : Node → Nat} (hp : LiveP P depth
           have hte : taskErrors (St.setTask (spawn s [.dagInit d'] .run).1 c.t
               { tkt with frames := [.mgrWait], st := .blocked (.cond .run) }) = [] := by
             unfold taskErrors; rw [hfin]; rfl
-          refine ⟨⟨hd.noHid, hd.noRec, ?_, ?_, ?_, ?_, ?_, hd.c6, hd.procPlain, ?_, ?_⟩, ?_, ?_, ?_⟩
+          refine ⟨⟨hd.noHid, hd.noRec, ?_, ?_, ?_, ?_, ?_, hd.c6, hd.procPlain, ?_, ?_, hd.stale⟩, ?_, ?_, ?_⟩
           · intro n hn; change s.proc n = true at hn; rw [hproc n] at hn; cases hn
           · intro n hn; change s.evSet n = true at hn; rw [hev n] at hn; cases hn
           · intro n hn; change (s.res n).isSome = true at hn; rw [hresNone n] at hn; cases hn
@@ -217,6 +217,7 @@ structure Env (s s' : St) : Prop where
   procHid : s'.procHid = s.procHid
   sw      : s'.sw = s.sw
   evSet   : s'.evSet = s.evSet
+  stale   : s'.stale = s.stale
   len     : s'.tasks.length = s.tasks.length
   task    : ∀ (i : Nat) (tk : Task), s.tasks[i]? = some tk → ∃ tk', s'.tasks[i]? = some tk' ∧ EnvTask tk tk'
 
@@ -303,7 +304,7 @@ theorem struct_env {P : Program} {depth : Node → Nat} {s s' : St} (hs : Struct
     Struct P depth s' := by
   have hd := hs.data
   have hL : ∀ q, Launched P s q → Launched P s' q := fun q h => h.env e
-  refine ⟨⟨?_, ?_, ?_, ?_, ?_, ?_, ?_, ?_, ?_, ?_, ?_⟩, ?_, ?_, ?_⟩
+  refine ⟨⟨?_, ?_, ?_, ?_, ?_, ?_, ?_, ?_, ?_, ?_, ?_, by rw [e.stale]; exact hd.stale⟩, ?_, ?_, ?_⟩
   · intro n; rw [e.resHid, e.procHid]; exact hd.noHid n
   · intro n v h; rw [e.res] at h; exact hd.noRec n v h
   · intro n hn
@@ -377,14 +378,14 @@ theorem envTask_gateDone (n inv att : Nat) (tk : Task) : EnvTask tk (gateDone n 
   · exact EnvTask.refl tk
 
 theorem env_gate (s : St) (n inv att : Nat) : Env s { s with tasks := s.tasks.map (gateDone n inv att) } := by
-  refine ⟨rfl, rfl, rfl, rfl, rfl, rfl, by simp, ?_⟩
+  refine ⟨rfl, rfl, rfl, rfl, rfl, rfl, rfl, by simp, ?_⟩
   intro i tk hi
   exact ⟨gateDone n inv att tk, by simp [List.getElem?_map, hi], envTask_gateDone n inv att tk⟩
 
 theorem env_timer (s : St) (t : Nat) (tk : Task) (ht : s.tasks[t]? = some tk) {n i a d : Nat}
     (hst : tk.st = .blocked (.sleep n i a d)) : Env s (s.setTask t { tk with st := .runnable .go }) := by
   have hlt := getElem?_lt ht
-  refine ⟨rfl, rfl, rfl, rfl, rfl, rfl, by simp [St.setTask], ?_⟩
+  refine ⟨rfl, rfl, rfl, rfl, rfl, rfl, rfl, by simp [St.setTask], ?_⟩
   intro j tkj hj
   rw [getElem?_close hlt]
   split
@@ -510,7 +511,7 @@ theorem struct_stepTask {P : Program} {depth : Node → Nat} (hp : LiveP P depth
 
 theorem struct_init (P : Program) (depth : Node → Nat) : Struct P depth init := by
   have htasks : init.tasks = [{ frames := [.mgrStart], st := .runnable .go, name := .caller }] := rfl
-  refine ⟨⟨fun n => ⟨rfl, rfl⟩, ?_, ?_, ?_, ?_, ?_, ?_, ?_, ?_, ?_, ?_⟩, ?_, ⟨_, rfl, rfl⟩, ?_⟩
+  refine ⟨⟨fun n => ⟨rfl, rfl⟩, ?_, ?_, ?_, ?_, ?_, ?_, ?_, ?_, ?_, ?_, rfl⟩, ?_, ⟨_, rfl, rfl⟩, ?_⟩
   · intro n v h; cases h
   · intro n h; cases h
   · intro n h; cases h
